@@ -140,7 +140,7 @@ func c17HelloVars(c *Ctx, fn *ssa.Function, key string, want map[string]int) {
 				return
 			}
 			al, ok := st.Addr.(*ssa.Alloc)
-			if !ok || al.Comment != name {
+			if !ok || allocName(al) != name {
 				return
 			}
 			call, i := callOf(st.Val)
@@ -318,15 +318,15 @@ func c17R4(c *Ctx) {
 					return "field:" + fld
 				}
 				if p, ok := v.(*ssa.Parameter); ok {
-					return "param:" + p.Name()
+					return "param:" + paramName(p)
 				}
 				if u, ok := v.(*ssa.UnOp); ok && u.Op == token.MUL {
 					if fv, ok := u.X.(*ssa.FreeVar); ok {
-						return "var:" + fv.Name()
+						return "var:" + freeVarName(fv)
 					}
 				}
 				if fv, ok := v.(*ssa.FreeVar); ok {
-					return "var:" + fv.Name()
+					return "var:" + freeVarName(fv)
 				}
 				return v.String()
 			}
